@@ -77,10 +77,22 @@ static void try_compile (OrcProgram * p, int t, unsigned flags, int flagkind, co
   } else if (ORC_COMPILE_RESULT_IS_SUCCESSFUL (r)) {
     st_ok++;
     if (!p->orccode) { viol ("success-no-code", tnames[t], sig, "successful result without a code object", text); return; }
+    {
+      /* a successful compile must not contain operands the code generator itself marks as invalid */
+      const char *a = orc_program_get_asm_code (p);
+      if (a && (strstr (a, "UNALLOCATED") || strstr (a, "%ERROR") || strstr (a, "(null)"))) {
+        const char *q = strstr (a, "UNALLOCATED") ? strstr (a, "UNALLOCATED") : strstr (a, "%ERROR") ? strstr (a, "%ERROR") : strstr (a, "(null)");
+        const char *ls = q, *le = q;
+        while (ls > a && ls[-1] != '\n') ls--;
+        while (*le && *le != '\n') le++;
+        snprintf (what, sizeof (what), "successful result 0x%x (flags 0x%x) but the generated code uses an unallocated/invalid register: `%.*s`", r, flags, (int) (le - ls > 120 ? 120 : le - ls), ls);
+        viol ("success-invalid-operand", tnames[t], sig, what, text);
+      }
+    }
     if (targets[t]->executable) {
       if (!p->orccode->exec || p->orccode->code_size <= 0) { snprintf (what, sizeof (what), "successful result 0x%x but exec=%p size=%d", r, (void *) p->orccode->exec, p->orccode->code_size); viol ("success-no-code", tnames[t], sig, what, text); }
       else if (!in_exec_region ((void *) p->orccode->exec)) viol ("success-no-code", tnames[t], sig, "successful result but the entry point is outside every executable region", text);
-      else if (runnable && flagkind == 0) {
+      else if (runnable && (flagkind == 0 || flagkind == 2)) {	/* 2: differs from the default only in frame pointer / jump size */
         /* callable: run it on small inputs (no value oracle here: that is C01's subject) */
         VRunCfg c;
         VArena A;
@@ -262,6 +274,49 @@ static void space2 (long start)
     }
     snprintf (sig, sizeof (sig), "fill=%d/tail=%d/size=%d", k, shape, sz);
     limits_case (p, sig, start);
+  }
+  /* register pressure x resampling: nd destinations + ns sources of which source j is resampled, for the four
+   * x86 environments {64,32-bit} x {frame pointer}: the resampled array's pointer and offset registers are the
+   * first, the last or beyond the last general registers available */
+  {
+    int nd, ns, j, lin, e, t;
+    for (nd = 1; nd <= 4; nd++) for (ns = 1; ns <= 8; ns++) for (j = 0; j < ns; j++) for (lin = 0; lin < 2; lin++) {
+      long idx = g_idx++;
+      OrcProgram *p;
+      int i;
+      if (!(idx >= start && (idx % nshards) == shard)) continue;
+      if (!thorough && lin && (nd + ns + j) % 3) continue;
+      p = orc_program_new ();
+      orc_program_set_name (p, "xc2r");
+      for (i = 0; i < nd; i++) { sprintf (nm, "d%d", i + 1); orc_program_add_destination (p, 4, nm); }
+      for (i = 0; i < ns; i++) { sprintf (nm, "s%d", i + 1); orc_program_add_source (p, 4, nm); }
+      orc_program_add_temporary (p, 4, "t1");
+      orc_program_add_constant (p, 4, 0, "c1");
+      orc_program_add_constant (p, 4, 0x10000, "c2");
+      sprintf (nm, "s%d", j + 1);
+      orc_program_append_2 (p, lin ? "ldreslinl" : "ldresnearl", 0, orc_program_find_var_by_name (p, "t1"), orc_program_find_var_by_name (p, nm),
+          orc_program_find_var_by_name (p, "c1"), orc_program_find_var_by_name (p, "c2"));
+      for (i = 0; i < nd; i++) {
+        char d[8], b[8];
+        sprintf (d, "d%d", i + 1);
+        sprintf (b, "s%d", ns > 1 ? (j + 1 + i % (ns - 1)) % ns + 1 : 1);
+        if (ns > 1) orc_program_append_str (p, "addl", d, "t1", b); else orc_program_append_str (p, "addl", d, "t1", "t1");
+      }
+      snprintf (sig, sizeof (sig), "resample/dest=%d,src=%d,resampled=s%d/%s", nd, ns, j + 1, lin ? "lin" : "near");
+      st_programs++;
+      for (t = 0; t < 3; t++) {
+        unsigned def;
+        if (!targets[t]) continue;
+        def = orc_target_get_default_flags (targets[t]);
+        for (e = 0; e < 4; e++) {
+          unsigned fv = (def & ~((1u << 9) | (1u << 7))) | ((e & 1) ? 0 : (1u << 9)) | ((e & 2) ? (1u << 7) : 0);
+          char text[200];
+          snprintf (text, sizeof (text), "%s with target flags 0x%x (%s-bit%s)", sig, fv, (e & 1) ? "32" : "64", (e & 2) ? ", frame pointer" : "");
+          try_compile (p, t, fv, fv == def ? 0 : (e & 1) ? 1 : 2, sig, text, 1);
+        }
+      }
+      orc_program_free (p);
+    }
   }
   /* number of arrays 1..12 (dest/source split), used and unused */
   for (n = 1; n <= 12; n++) for (k = 1; k <= 4 && k <= n; k++) for (sz = 1; sz <= 4; sz *= 2) {
